@@ -122,7 +122,9 @@ def parsePair (s : String) : Option (Bytes × Bytes) :=
   | _ => none
 
 def parsePubTag (s : String) : Option PubTag :=
-  if s == "ok" then some .valid else if s == "inf" then some .infinity else if s == "bad" then some .bad else none
+  -- inf0 / inf1: full-length encodings the decoder maps to the identity too (tag 0 + anything, tag 1 + zero coordinates)
+  if s == "ok" then some .valid else if s == "inf" || s == "inf0" || s == "inf1" then some .infinity
+  else if s == "bad" || s == "trunc" then some .bad else none
 
 def parseIdTag (s : String) : Option IdTag :=
   if s == "other" then some .other else if s == "same" then some .same else if s == "empty" then some .empty else none
